@@ -554,7 +554,17 @@ func expectedRandom(r *Rng) c20Case {
 
 // ------------------------------------------------------------------ part D: the progress tracker / verdict
 
+// leaked counts verdict cases after which the telemetry left goroutines running in the bubble
+// (the renderer is never stopped when the result was decided before it started).
+var leaked []string
+
 func runVerdictCase(t *testing.T, c *c20Case) {
+	defer func() {
+		if r := recover(); r != nil {
+			leaked = append(leaked, c.Family+": "+fmt.Sprint(r))
+			c.term = verdictTerm(c)
+		}
+	}()
 	synctest.Test(t, func(t *testing.T) {
 		pt := telemetry.NewProgressTelemetry(io.Discard)
 		pt.Start()
@@ -585,10 +595,14 @@ func runVerdictCase(t *testing.T, c *c20Case) {
 		time.Sleep(2 * time.Second)
 		synctest.Wait()
 	})
+	c.term = verdictTerm(c)
+}
+
+func verdictTerm(c *c20Case) string {
 	trk := func(tr c20Tracker) string {
 		return fmt.Sprintf("(%s, %s)", CoqZ(tr.Total), CoqList(tr.Incs, CoqZ))
 	}
-	c.term = fmt.Sprintf("mkVCase %s %s", CoqList(c.Trackers, trk), CoqBool(c.Obs.Success))
+	return fmt.Sprintf("mkVCase %s %s", CoqList(c.Trackers, trk), CoqBool(c.Obs.Success))
 }
 
 func verdictBoundary() []c20Case {
@@ -871,7 +885,13 @@ func TestC20(t *testing.T) {
 			"property": "C20", "seed": EnvSeed(), "cases": byKind[k], "families": fam[k],
 		})
 	}
+	var extra []map[string]any
+	for _, l := range leaked {
+		extra = append(extra, map[string]any{"what": "progress telemetry left goroutines running after AllProgressComplete returned", "detail": l})
+	}
 	if !replay {
-		runSimulations(t, dir)
+		runSimulations(t, dir, extra)
+	} else if len(extra) > 0 {
+		WriteJSON(t, filepath.Join(dir, "direct.json"), map[string]any{"evaluations": 0, "nontrivial_keys": []string{}, "violations": extra, "known": map[string]any{}})
 	}
 }
